@@ -567,6 +567,16 @@ class _Gen:
                 return
             if op[2] == op[3] and op[3] > len(self.base):
                 return      # a new directory moved into itself: KeyError in the limbo bookkeeping (not modelled)
+            if op[3] > len(self.base) and self.par.get(op[3], 0) > len(self.base):
+                # a new entry that lives inside its new parent's limbo directory, moved below one of its own
+                # descendants: _rename_in_limbo would rename a directory into itself (OSError EINVAL from
+                # adjust_path, nothing applied; limbo placement is not modelled)
+                y, seen = op[2], set()
+                while y in self.par and y not in seen:
+                    seen.add(y)
+                    y = self.par[y]
+                    if y == op[3]:
+                        return
             self.par[op[3]] = op[2]
         elif k == "delete":
             if 1 <= op[1] <= len(self.base):
